@@ -159,6 +159,32 @@ static void check_value(const unsigned long long v64)
 template<int Bit>
 struct cx;
 @CXSPECS@
+static constexpr T cx_raw(T v)
+{
+    S s{};
+    *s = v;
+    return *s;
+}
+struct cx_visitor
+{
+    unsigned long long mask = 0, seen = 0;
+    int n = 0;
+    template<typename Tag>
+    constexpr void on_set_choice(bool v, Tag)
+    {
+        const unsigned long long bit = 1ULL << sbepp::set_choice_traits<Tag>::index();
+        seen |= bit;
+        if(v)
+            mask |= bit;
+        n++;
+    }
+};
+static constexpr cx_visitor cx_visit(T v)
+{
+    cx_visitor vis{};
+    sbepp::visit(S{v}, vis);
+    return vis;
+}
 template<unsigned long long V, int Bit, bool B>
 static void cx_one()
 {
@@ -171,6 +197,23 @@ static void cx_one()
         mismatch("constexpr-setter", @W@, Bit, V, *r, expv);
     if(g != (((V >> Bit) & 1ULL) != 0))
         mismatch("constexpr-getter", @W@, Bit, V, g, (V >> Bit) & 1ULL);
+    // by-tag access, raw access, equality and visiting in constant expressions
+    constexpr S rt = cx<Bit>::set_tag(static_cast<T>(V), B);
+    constexpr bool gt = cx<Bit>::get_tag(static_cast<T>(V));
+    constexpr T raw = cx_raw(static_cast<T>(V));
+    constexpr bool eq = (S{static_cast<T>(V)} == r), ne = (S{static_cast<T>(V)} != r);
+    constexpr cx_visitor vs = cx_visit(static_cast<T>(V));
+    g_cx += 5;
+    if(*rt != expv)
+        mismatch("constexpr-set_by_tag", @W@, Bit, V, *rt, expv);
+    if(gt != (((V >> Bit) & 1ULL) != 0))
+        mismatch("constexpr-get_by_tag", @W@, Bit, V, gt, (V >> Bit) & 1ULL);
+    if(raw != static_cast<T>(V))
+        mismatch("constexpr-raw", @W@, Bit, V, raw, V);
+    if(eq != (expv == static_cast<T>(V)) || ne == eq)
+        mismatch("constexpr-equality", @W@, Bit, V, eq, expv == static_cast<T>(V));
+    if(vs.n != @W@ || vs.mask != static_cast<unsigned long long>(static_cast<T>(V)) || vs.seen != static_cast<unsigned long long>(static_cast<T>(~T{0})))
+        mismatch("constexpr-visit", @W@, vs.n, V, vs.mask, vs.seen);
 }
 static void cx_all()
 {
@@ -237,7 +280,9 @@ def make_driver(order, rng):
         ts = ", ".join("[](S& s, bool b) { sbepp::set_by_tag<tags::c%d>(s, b); }" % i for i in range(w))
         specs = "".join(
             "template<> struct cx<%d> { static constexpr S set(T v, bool b) { S s{v}; s.c%d(b); return s; } "
-            "static constexpr bool get(T v) { return S{v}.c%d(); } };\n" % (i, i, i) for i in range(w))
+            "static constexpr bool get(T v) { return S{v}.c%d(); } "
+            "static constexpr S set_tag(T v, bool b) { S s{v}; sbepp::set_by_tag<tags::c%d>(s, b); return s; } "
+            "static constexpr bool get_tag(T v) { return sbepp::get_by_tag<tags::c%d>(S{v}); } };\n" % (i, i, i, i, i) for i in range(w))
         # constexpr cells: every bit, both bool values, a handful of literal values
         mask = (1 << w) - 1
         vals = sorted({0, mask, 0xAAAAAAAAAAAAAAAA & mask, 0x5555555555555555 & mask,
@@ -281,7 +326,7 @@ def main():
              "underlying values: all 256 / all 65536 for 8/16 bit, 0, ~0, alternating, sign-boundary, walking-1, "
              "walking-0 and %d seeded random patterns for 32/64 bit; per value and bit: getter, get_by_tag, setter and "
              "set_by_tag for both bool values, ==/!=, raw value access, visit order/values/tags, buffer round trip via "
-             "a message field; constexpr leg (C++14+) over every bit x both values x 4-6 literal values. A cell is one "
+             "a message field; constexpr leg (C++14+) over every bit x both values x 4-6 literal values: named getter/setter, get_by_tag/set_by_tag, raw access, equality and a constexpr visitor. A cell is one "
              "accessor result compared with uint64 arithmetic. distinct_nontrivial = distinct (width, bit, operation) "
              "triples executed (a bit index >= 31 or a width > 8 is where promotion arithmetic differs)." % nrand)
     cfgs = configs(rep.tier)
